@@ -256,10 +256,14 @@ func (l *queue) Empty() bool {
 	if l.head == nil || l.tail == nil || len(l.segments) == 0 {
 		return true
 	}
-	if l.head == l.tail && l.head.pos == l.tail.filePos()-footerSize {
-		return true
+	// The queue is empty when no segment holds an unread block. This must not
+	// be derived from the file offset, which reads and advances move around.
+	for _, s := range l.segments {
+		if !s.empty() {
+			return false
+		}
 	}
-	return false
+	return true
 }
 
 // diskUsage returns the total size on disk used by the queue
@@ -740,6 +744,13 @@ func (l *segment) close() error {
 	}
 	l.file = nil
 	return nil
+}
+
+// empty reports whether the segment holds no unread block, flushed or buffered.
+func (l *segment) empty() bool {
+	l.mu.RLock()
+	defer l.mu.RUnlock()
+	return l.pos == l.size-footerSize && (l.buf == nil || l.buf.Len() == 0)
 }
 
 func (l *segment) lastModified() (time.Time, error) {
